@@ -49,9 +49,10 @@ Theorem C09_client_request_wf : forall (store : Z -> lookup) p eds i j junk,
 Proof. exact client_request_wf. Qed.
 Print Assumptions C09_client_request_wf.
 
-(** ** notfound *)
-Theorem C09_notfound : forall (P : Type) (store : Z -> lookup) (limit : Z) (build : proto -> id -> built P) p bs i,
-  read_id p bs = Some i -> validate (pkind p) i = true -> store (h i) = LNotFound ->
+(** ** notfound: whatever getter sits in front of the store — the bare store.ErrNotFound or one wrapped with context
+    ([wrapped]: store.CachedStore, any %w decorator) *)
+Theorem C09_notfound : forall (P : Type) (store : Z -> lookup) (limit : Z) (build : proto -> id -> built P) p bs i wrapped,
+  read_id p bs = Some i -> validate (pkind p) i = true -> store (h i) = LNotFound wrapped ->
   handle store limit build p bs = (OStatus SNotFound, ghost0).
 Proof. exact @notfound. Qed.
 Print Assumptions C09_notfound.
@@ -211,6 +212,7 @@ Theorem C09_nonvacuous :
   handle ex_store 1000 ex_build PSample (be 8 30 ++ be 2 3 ++ be 2 8) = (OStatus SInternal, mkghost 1 1 782 782) /\
   handle ex_store 1000 ex_build PSample (be 8 0 ++ be 2 3 ++ be 2 5) = (OReset, ghost0) /\
   handle ex_store 1000 ex_build PSample (be 8 77 ++ be 2 3 ++ be 2 5) = (OStatus SNotFound, ghost0) /\
+  handle ex_store 1000 ex_build PSample (be 8 78 ++ be 2 3 ++ be 2 5) = (OStatus SNotFound, ghost0) /\
   handle ex_store 1000 ex_build PSample (be 8 31 ++ be 2 3 ++ be 2 5) = (OStatus SInternal, mkghost 1 1 0 0) /\
   handle ex_store (2 ^ 30) ex_build PRange (be 8 30 ++ be 4 0 ++ be 4 16) = (OPayload 16, mkghost 1 1 8192 8192) /\
   handle ex_store (2 ^ 30) ex_build PRange (be 8 30 ++ be 4 0 ++ be 4 17) = (OStatus SInternal, mkghost 1 1 8704 8704) /\
